@@ -50,6 +50,7 @@ static int cl_exp_dl(int srv, uint16_t idx, uint8_t sub, const uint8_t *d, int l
     uint8_t f[8];
     cl_req(f, (uint8_t)(0x22 | (s_bit ? (1 | ((4 - len) << 2)) : 0)), idx, sub);
     memcpy(f + 4, d, (size_t)len);
+    if (s_bit) for (int k = 4 + len; k < 8; k++) f[k] = (uint8_t)(0xA5 + 0x1B * k);      /* bytes that carry no data are not zero */
     cl_send(srv, f);
     if (cl_check_abort()) return CL_ABORT;
     if (cl_nresp != 1 || cl_resp[0].d[0] != 0x60) CL_ERR("expedited download: unexpected response");
